@@ -2,7 +2,7 @@
 (* Builder for C09: a target type (kind x carries serde(rename)?) referenced from every position   *)
 (* of fixed host items, under a prefix setting; prints the definition name P requires.               *)
 EXTENDS Names, TLC, Json
-CONSTANTS Kinds, Prefixes, Modes, Elsewheres, SvNames
+CONSTANTS Kinds, Prefixes, Modes, Elsewheres, SvNames, Idents
 VARIABLE c
 \* mode: single-file or folder output. elsewhere: in folder mode, ANOTHER crate defines a type with the same Rust identifier
 \* as the target (plain, or carrying its own serde(rename)); the references under test are to the crate's own type, so the
@@ -10,11 +10,14 @@ VARIABLE c
 \* svname: the identifier of the host's struct variant, whose derived helper struct is named after it: plain (Sv), all capitals
 \* (OK), with an underscore (Rate_Limited), starting in lower case (lowerCase) - spellings a case conversion would change
 Init == c \in { r \in [kind : Kinds, renamed : BOOLEAN, prefix : Prefixes, second_renamed : BOOLEAN, mode : Modes, elsewhere : Elsewheres,
-                        svname : SvNames] :
+                        svname : SvNames, ident : Idents] :
+                  /\ r.ident # "Target" => (r.elsewhere = "none" /\ r.svname = "Sv" /\ r.mode = "single")
                   /\ r.elsewhere # "none" => r.mode = "folder"
                   /\ r.svname # "Sv" => (r.kind = "struct" /\ r.elsewhere = "none" /\ ~r.second_renamed) }
 Next == UNCHANGED c
-Target == [ident |-> "Target", rename |-> IF c.renamed THEN "TargetRenamed" ELSE ""]
+\* ident: the Rust identifier of the target. Protocol / Type are reserved words of Swift (the backend escapes them with back-ticks,
+\* which are not part of the name): escaping and prefixing must commute, so that definition and references still agree
+Target == [ident |-> c.ident, rename |-> IF c.renamed THEN c.ident \o "Renamed" ELSE ""]
 Second == [ident |-> "Second", rename |-> IF c.second_renamed THEN "SecondRenamed" ELSE ""]
 Emit == PrintT(<<"REPLAY", ToJson([case |-> c, target |-> Target, second |-> Second,
                                    defname |-> DefName(Target, c.prefix), second_defname |-> DefName(Second, c.prefix)])>>)
